@@ -30,8 +30,6 @@ Definition unaccounted (sites : list string) (table : list (string * string)) : 
 Definition panic_table : list (string * string) := [
   ("app/ante/ante.go|NewAnteHandler|assert|_.(authante.HasExtensionOptionsTx)",
    "type fixed by the caller: parameter key table, or the transaction type checked earlier in the ante chain");
-  ("app/ante/ante.go|NewAnteHandler|assert|_.(type)",
-   "type fixed by the caller: parameter key table, or the transaction type checked earlier in the ante chain");
   ("app/ante/ante.go|NewAnteHandler|index|_[0]",
    "guarded by len(..) > 0 on the same line / by isOracleTx (at least one message: validateBasicTxMsgs)");
   ("app/ante/fee.go|DeductFeeDecorator.AnteHandle|assert|_.(sdk.FeeTx)",
@@ -176,6 +174,12 @@ Definition panic_table : list (string * string) := [
    "i is the index of the loop over tenant.Admins");
   ("x/settlement/keeper/msg_server.go|msgServer.RemoveTenantAdmin|slice|_.Admins[_+1:]",
    "i is the index of the loop over tenant.Admins");
+  ("x/settlement/keeper/keeper.go|SettlementKeeper.callContract|call:CallEVM|_.evmk.CallEVM",
+   "the one call to a user-chosen address: inside the recover of callContract, a panic of the EVM becomes an error (F25)");
+  ("x/settlement/keeper/tenant.go|SettlementKeeper.deployTokenContract|call:CallEVMWithData|_.evmk.CallEVMWithData",
+   "contract creation (callee nil): the new address is derived from the treasury account and its nonce, no user-chosen callee");
+  ("x/settlement/keeper/keeper.go|SettlementKeeper.callContract|panic|panic(_)",
+   "inside a recover: re-raises only the out-of-gas / gas-overflow panics of the transaction's gas meter, which baseapp turns into an out-of-gas result; begin- and end-block run on an infinite gas meter; every other panic of the EVM call becomes an error (F25)");
   ("x/settlement/keeper/settle.go|SettlementKeeper.Settle|panic|panic(fmt.Errorf('failed to settle: %w', _))",
    "settleUTXRs returns an error only if deleteUTXR does not find the record it has just read from the iterator: unreachable");
   ("x/settlement/keeper/settle.go|SettlementKeeper.settleUTXRs|call:MustUnmarshal|_.cdc.MustUnmarshal",
